@@ -11,8 +11,9 @@ import (
 )
 
 // calleeName returns a stable, fully qualified name for the callee of a call:
-//   pkg/path.Func, (*pkg/path.T).Method, (pkg/path.I).Method for interface invokes,
-//   "builtin:len", "closure:<fn>" for direct closure calls, "dynamic" otherwise.
+//
+//	pkg/path.Func, (*pkg/path.T).Method, (pkg/path.I).Method for interface invokes,
+//	"builtin:len", "closure:<fn>" for direct closure calls, "dynamic" otherwise.
 func calleeName(call ssa.CallInstruction) string {
 	c := call.Common()
 	if c.IsInvoke() {
@@ -120,7 +121,11 @@ func cellStores(a *ssa.Alloc) (stores []*ssa.Store, ok bool) {
 			case *ssa.UnOp:
 				// load
 			case *ssa.FieldAddr, *ssa.IndexAddr:
-				// partial access: not a whole-variable store; handled by callers that need it
+				// partial access: a store through it (or its escape) modifies the variable in part, so the
+				// variable's value is no longer any single stored value
+				if partiallyWritten(x.(ssa.Value)) {
+					ok = false
+				}
 			case *ssa.MakeClosure:
 				fn := x.Fn.(*ssa.Function)
 				for i, b := range x.Bindings {
@@ -139,6 +144,33 @@ func cellStores(a *ssa.Alloc) (stores []*ssa.Store, ok bool) {
 	}
 	visitAddr(a)
 	return
+}
+
+// partiallyWritten: the element/field address (or a sub-address of it) is stored to or handed to a call.
+func partiallyWritten(addr ssa.Value) bool {
+	refs := addr.Referrers()
+	if refs == nil {
+		return false
+	}
+	for _, r := range *refs {
+		switch x := r.(type) {
+		case *ssa.Store:
+			if x.Addr == addr {
+				return true
+			}
+		case *ssa.FieldAddr:
+			if partiallyWritten(x) {
+				return true
+			}
+		case *ssa.IndexAddr:
+			if partiallyWritten(x) {
+				return true
+			}
+		case ssa.CallInstruction:
+			return true
+		}
+	}
+	return false
 }
 
 // Ex renders canonical expressions for SSA values.
